@@ -205,6 +205,7 @@ Failing(ww, e) == {name \in ClauseNames : ~Clause(name, ww, e)}
 
 SeenOf(ww, e) ==
   {e.a, ww.conv}
+  \cup (IF "via" \in DOMAIN ww THEN {"held-" \o ww.via} ELSE {})
   \cup (IF woff # 0 /\ e.a # "Mutate" THEN {"after-mutation"} ELSE {})
   \cup (IF ~clean THEN {"degenerate-skipped"} ELSE {})
   \cup (IF \E n \in 1..Len(polys) : polys[n] = <<>> THEN {"holes"} ELSE {})
